@@ -21,19 +21,20 @@ import (
 
 // Inst is one bounded instance of a harness.
 type Inst struct {
-	Pkg         string
-	Fn          string
-	Args        []int64
-	Unwind      int
-	MaxPaths    int
-	Ctx         int  // context-switch bound (0 = unbounded)
-	Race        bool // happens-before race check
-	MaxSched    int
-	Note        string
-	ForceNative bool     // replayed natively although the spec is engine-only (schedule-independent outcome)
-	NoNative    bool     // concurrency harness: no deterministic native replay
-	KnownRaces  []string // substrings of race descriptions listed as known findings
-	RandChoice  bool     // math/rand.Float64 = one of {0, 0.5, 0.9999999} instead of a symbolic float
+	Pkg          string
+	Fn           string
+	Args         []int64
+	Unwind       int
+	MaxPaths     int
+	Ctx          int  // context-switch bound (0 = unbounded)
+	Race         bool // happens-before race check
+	MaxSched     int
+	Note         string
+	UnwindIsHang bool     // no terminating run of this instance can reach the loop bound: a bound hit is reported as non-termination
+	ForceNative  bool     // replayed natively although the spec is engine-only (schedule-independent outcome)
+	NoNative     bool     // concurrency harness: no deterministic native replay
+	KnownRaces   []string // substrings of race descriptions listed as known findings
+	RandChoice   bool     // math/rand.Float64 = one of {0, 0.5, 0.9999999} instead of a symbolic float
 }
 
 func (i Inst) Key() string { return fmt.Sprintf("%s.%s%v", i.Pkg, i.Fn, i.Args) }
@@ -733,7 +734,9 @@ func runCheck(prop, tier string, opt options) int {
 		case g.o.Kind == "unwind":
 			confirmed = g.conf == "hang"
 		}
-		if g.o.Kind == "unwind" && !confirmed {
+		if g.o.Kind == "unwind" && !confirmed && g.in.UnwindIsHang && g.in.NoNative {
+			note = "non-termination: the loop bound is far beyond what any terminating run of this instance needs; engine-only instance, replay re-executes the recorded decision vector"
+		} else if g.o.Kind == "unwind" && !confirmed {
 			inconclusive = append(inconclusive, fmt.Sprintf("%s: unwinding bound hit (%s @ %s), native run: %s", g.in.Key(), g.o.Detail, g.o.Site, g.conf))
 			continue
 		}
